@@ -34,7 +34,8 @@ operator well formed and denoting `R·A·P`), `Bridge.PolicyNodup pol` (no repea
 operator), `Bridge.PolicyInjective pol`; `Bridge.ProlongationsInjective ls`, `Bridge.LevelMatrices Q ls`.
 
 **Open** (see `model_amg_spd_contracting_partial` at the end): `over_interp ≠ 1` (rescaled Galerkin operator —
-`scaled_galerkin_matrix` gives its matrix `s • R A P`, but `Hier.OK` needs the unscaled one), instances of `PolicyOK` /
+`scaled_galerkin_matrix` gives its matrix `s • R A P` and `built_realizes_any_coarse` the matrix recursion, but `Hier.OK`
+needs the unscaled operator, so SPD / contraction is not proved there), instances of `PolicyOK` /
 `PolicyInjective` for smoothed aggregation and Ruge–Stüben (their `R` is `transpose P` too; injectivity of the smoothed
 `P` is not proved), `block_size > 1`, ILU / Chebyshev (no smoothing inequality in C02b), weak diagonal dominance of the
 coarse matrices for Jacobi / SPAI-0 is a hypothesis.
@@ -190,6 +191,42 @@ theorem built_cycle_is_matrix_recursion (r : RealSmoother K) (hr : r.NormOK) {po
         (vecOf A.nrows f) (vecOf A.nrows x) := by
   have h := cycle_realizes prm (build_realizes r hr hpol prm directOk direct A hA hsq ls hb hadm hdir) scr f x hl hf hx
   rwa [hier_build_A] at h
+
+/-- **arbitrary (e.g. rescaled) coarse operators.**  If the coarse operator is only known to be well formed of the right
+shape (`PolicyShape`; e.g. `scaled_galerkin(A, P, R, s)` of plain aggregation for *every* `s = 1/over_interp`:
+`policyShape_aggregation`), the built hierarchy still realises an abstract hierarchy `h` with top matrix `matOf A`, so the
+model `cycle` is `x ↦ x + B (f − A x)` and `apply` is multiplication by one fixed matrix, whatever the scratch contents.
+(The SPD / contraction conclusion needs the exact Galerkin relation and is open for `s ≠ 1`.) -/
+theorem built_realizes_any_coarse (r : RealSmoother K) (hr : r.NormOK) {pol : Policy K} (hpol : PolicyShape pol)
+    (prm : Params) (directOk : CRS K → Bool) (direct : CRS K → Vec K → Vec K) (A : CRS K) (hA : A.WF)
+    (hsq : A.ncols = A.nrows) (ls : List (Level K r.State)) (hb : build prm pol r.model directOk A = .ok ls)
+    (hadm : ∀ lv ∈ ls, lv.solve = none → ∀ M, lv.A = some M → r.Adm M)
+    (hdir : ∀ lv ∈ ls, ∀ Ad, lv.solve = some Ad → DirectExact direct Ad) :
+    ∃ h : Hier K A.nrows, Realizes r.model direct A.nrows ls h ∧ h.A = matOf A A.nrows A.nrows ∧
+      (∀ (scr : List (Scratch K)) (f x : Vec K), scr.length = ls.length → f.size = A.nrows → x.size = A.nrows →
+        vecOf A.nrows (cycle prm r.model direct ls scr f x).1 =
+          step (matOf A A.nrows A.nrows) (h.B (cyc prm)) (vecOf A.nrows f) (vecOf A.nrows x)) ∧
+      (0 < prm.pre_cycles → ∀ (scr : List (Scratch K)) (f : Vec K), scr.length = ls.length → f.size = A.nrows →
+        vecOf A.nrows (apply prm r.model direct ls scr f).1 = h.applyB (cyc prm) prm.pre_cycles *ᵥ vecOf A.nrows f) := by
+  obtain ⟨h, h1, h2⟩ := build_realizes_exists r hr hpol prm directOk direct A hA hsq ls hb hadm hdir
+  refine ⟨h, h1, h2, fun scr f x hl hf hx => ?_, fun hpc scr f hl hf => apply_realizes prm hpc h1 scr f hl hf⟩
+  rw [← h2]; exact cycle_realizes prm h1 scr f x hl hf hx
+
+-- `over_interp = 3/2` on the 4-point Laplacian (three levels, coarse matrices `2/3 · Pᵀ A P`), Gauss–Seidel
+example : ∃ ls, build Ex.prm Ex.polS Ex.smGS.model Ex.directOk Ex.A4c = .ok ls ∧ ls.length = 3 ∧
+    ∃ B : Matrix (Fin 4) (Fin 4) ℚ, ∀ (scr : List (Scratch ℚ)) (f : Vec ℚ), scr.length = ls.length → f.size = 4 →
+      vecOf 4 (apply Ex.prm Ex.smGS.model Ex.direct ls scr f).1 = B *ᵥ vecOf 4 f := by
+  have hok := Ex.buildS_ok
+  cases hb : build Ex.prm Ex.polS Ex.smGS.model Ex.directOk Ex.A4c with
+  | error e => rw [hb] at hok; cases hok
+  | ok ls =>
+    rw [hb] at hok
+    have hok' : (ls.length == 3 && Ex.levelsAdmB ls) = true := hok
+    rw [Bool.and_eq_true, beq_iff_eq] at hok'
+    obtain ⟨h, -, -, -, h4⟩ := built_realizes_any_coarse Ex.smGS trivial Ex.policyShapeS Ex.prm Ex.directOk Ex.direct
+      Ex.A4c Ex.A4c_wf Ex.A4c_sq ls hb (Ex.hadm_of_b ls hok'.2) (fun lv hlv Ad hs =>
+        Ex.direct_exact Ad (build_solve_levels Ex.prm Ex.polS _ Ex.directOk Ex.A4c ls hb lv hlv Ad hs).1)
+    exact ⟨ls, rfl, hok'.1, _, h4 (by decide)⟩
 
 end built
 
@@ -352,8 +389,8 @@ multiplication by an SPD matrix `B`, independent of the scratch contents, and `1
 all its eigenvalues have modulus `< 1`: `C02b.spectral_radius_lt_one`).
 
 MISSING for the full statement:
-1. `over_interp ≠ 1`: the coarse matrix is `s • (R A P)` (`scaled_galerkin_matrix`), outside `Hier.OK`; `built_realizes`
-   needs `PolicyOK.coarse` with the unscaled product;
+1. `over_interp ≠ 1`: the coarse matrix is `s • (R A P)` (`scaled_galerkin_matrix`), outside `Hier.OK`; for it only
+   `built_realizes_any_coarse` (the cycle is a fixed matrix recursion) is proved, not SPD / contraction;
 2. `PolicyOK` / `PolicyNodup` / `PolicyInjective` instances for smoothed aggregation and Ruge–Stüben (both return
    `R = transpose(P)`; `built_apply_spd_contracting` applies verbatim once their `P` is shown well formed, duplicate free
    and injective), `smoothed_aggr_emin` (`R ≠ Pᵀ`), `block_size > 1`;
